@@ -13,7 +13,7 @@ Definition is_cb (e : ev) : bool :=
 Definition cbs (l : list ev) : list ev := filter is_cb l.
 
 Definition pre_enter (pc : kpc) : bool :=
-  match pc with KCheck | KAuth | KFinal | KTrigLock | KTrigCheck | KEnter => true | _ => false end.
+  match pc with KCheck | KAuth | KShut | KFinal | KTrigLock | KTrigCheck | KEnter => true | _ => false end.
 
 Record CbInv (s : st) : Prop := {
   cb_none : hreg s = false -> cbs (trace s) = [];
@@ -45,7 +45,7 @@ Qed.
 
 Ltac corec :=
   unfold spawn_int, submit_job, thr_set, thr_del, log, set_gst1 in *;
-  cbn [trace thr hreg kstarted status
+  cbn [trace thr hreg kstarted status next_int next_ext
        set_status set_authed set_closing set_chans set_genctr set_gclosed set_cmu set_pmu set_pinfl
        set_kstarted set_slock set_hub set_others set_reg set_pres set_bsub set_jobs set_gconn set_gsub
        set_trace set_thr set_next_ext set_next_int set_panicked set_wclosed set_hreg set_shut set_gst] in *.
@@ -56,7 +56,7 @@ Lemma Cb_step s s' t o' es nt :
   CbInv s -> thr s t <> None ->
   trace s' = trace s ++ es ->
   hreg s' = hreg s -> kstarted s' = kstarted s ->
-  (status s' = Connected -> status s = Connected) ->
+  (status s' = Connected -> hreg s = true \/ status s = Connected) ->
   (forall e, In e es -> is_cb e = true -> e <> EvConnectCb /\ hreg s = true) ->
   (forall t0, t0 <> t -> thr s' t0 = thr s t0 \/
                           (t0 = nt /\ thr s t0 = None /\
@@ -99,7 +99,7 @@ Proof.
       - subst tx. rewrite THT in Ex. destruct (OC pcx Ex) as (pc0 & Ey & _). eauto.
       - destruct (OTH tx n) as [X|(_ & _ & X)]; [rewrite X in Ex; eauto|rewrite Ex in X; destruct X]. }
     destruct (F _ _ E0) as (p0 & F0). destruct (F _ _ E1) as (p1 & F1). eapply C5; eauto.
-  - rewrite HR. intros X. apply C6. auto.
+  - rewrite HR. intros X. destruct (ST X); auto.
   - intros t0 k E P. rewrite HR. destruct (N.eqb_spec t0 t); [subst t0; rewrite THT in E; eauto|].
     destruct (OTH t0 n) as [X|(_ & _ & X)]; [rewrite X in E; eauto|].
     rewrite E in X. rewrite X in P. discriminate.
@@ -110,7 +110,7 @@ From Cfg Require Import Proofs.SubBroker Proofs.SubBrokerStep.
 Lemma Cb_step0 s s' t o' nt :
   CbInv s -> thr s t <> None ->
   trace s' = trace s -> hreg s' = hreg s -> kstarted s' = kstarted s ->
-  (status s' = Connected -> status s = Connected) ->
+  (status s' = Connected -> hreg s = true \/ status s = Connected) ->
   (forall t0, t0 <> t -> thr s' t0 = thr s t0 \/
                           (t0 = nt /\ thr s t0 = None /\
                            match thr s' t0 with Some (TCls k) => k_prev k = Connecting | Some (TJob _) => True | _ => False end)) ->
@@ -126,7 +126,7 @@ Qed.
 Lemma Cb_step1 s s' t o' e nt :
   CbInv s -> thr s t <> None ->
   trace s' = trace s ++ [e] -> hreg s' = hreg s -> kstarted s' = kstarted s ->
-  (status s' = Connected -> status s = Connected) ->
+  (status s' = Connected -> hreg s = true \/ status s = Connected) ->
   (is_cb e = true -> e <> EvConnectCb /\ hreg s = true) ->
   (forall t0, t0 <> t -> thr s' t0 = thr s t0 \/
                           (t0 = nt /\ thr s t0 = None /\
@@ -161,6 +161,8 @@ Qed.
 Lemma cg_tr g s : trace (close_gate g s) = trace s /\ thr (close_gate g s) = thr s /\
   hreg (close_gate g s) = hreg s /\ kstarted (close_gate g s) = kstarted s /\ status (close_gate g s) = status s.
 Proof. unfold close_gate. destruct (gclosed s g); cbn; auto. Qed.
+Lemma cg_ni' g s : next_int (close_gate g s) = next_int s.
+Proof. unfold close_gate. destruct (gclosed s g); reflexivity. Qed.
 Lemma cc_tr c s : trace (close_cap c s) = trace s /\ thr (close_cap c s) = thr s /\
   hreg (close_cap c s) = hreg s /\ kstarted (close_cap c s) = kstarted s /\ status (close_cap c s) = status s.
 Proof. destruct c; cbn; auto. apply cg_tr. Qed.
@@ -208,4 +210,278 @@ Proof.
        |corec; apply oth_plain|corec; apply upd_same
        |intros ? X; inversion X; subst; cbn; intros; first [apply CLI; assumption | congruence | auto]
        |intros ? X; discriminate X|intros ? X; discriminate X]; fail).
+Qed.
+
+(* generic application for threads that are neither attempts nor the connect thread *)
+Ltac cb0 CI NN FR NT :=
+  eapply Cb_step0 with (nt := 2 * next_int _ + 1); [exact CI|exact NN
+    |corec; reflexivity|corec; reflexivity|corec; reflexivity|corec; auto
+    |corec; first [apply oth_plain | apply oth_spawn; [exact FR|exact NT|reflexivity]]
+    |corec; apply upd_same
+    |intros ? X; discriminate X|intros ? X; discriminate X
+    |intros ? X; inversion X; subst; cbn; auto].
+
+Lemma u_step_Cb s t th u b s1 ou o' :
+  CbInv s -> thr s t = Some th ->
+  (forall k, o' = Some (TCls k) -> k_prev k = Connected -> hreg s = true) ->
+  match o' with Some (TAtt _) | Some (TCon _) => False | _ => True end ->
+  u_step s t u b = Some (s1, ou) ->
+  forall s', trace s' = trace s1 -> thr s' = upd (thr s1) t o' -> hreg s' = hreg s1 ->
+             kstarted s' = kstarted s1 -> status s' = status s1 -> CbInv s'.
+Proof.
+  intros CI ET OK NO H s' TR TH HR KS ST.
+  assert (NN : thr s t <> None) by congruence.
+  unfold u_step in H.
+  destruct (hr_tr (u_ch u) (u_rm u) s) as (H1 & H2 & H3 & H4 & H5).
+  destruct (u_pc u);
+    repeat match type of H with
+    | (if ?c then _ else _) = _ => destruct c eqn:?
+    | match ?o with Some _ => _ | None => _ end = _ => destruct o eqn:?
+    end; try discriminate; inv H;
+    repeat (match goal with H : context [if ?x then _ else _] |- _ => destruct x eqn:? end).
+  all: try (destruct (cg_tr (c_gen c) s) as (K1 & K2 & K3 & K4 & K5)).
+  all: try (eapply Cb_step0 with (t := t) (nt := 0); [exact CI|exact NN
+            |rewrite TR; corec; rewrite ?H1, ?K1; reflexivity|rewrite HR; corec; rewrite ?H3, ?K3; reflexivity
+            |rewrite KS; corec; rewrite ?H4, ?K4; reflexivity|rewrite ST; corec; rewrite ?H5, ?K5; auto
+            |rewrite TH; corec; rewrite ?H2, ?K2; apply oth_plain
+            |rewrite TH; corec; rewrite ?H2, ?K2; apply upd_same
+            |intros ? X; subst; destruct NO|intros ? X; subst; destruct NO|exact OK]; fail).
+  all: try (eapply Cb_step1 with (t := t) (nt := 0); [exact CI|exact NN
+            |rewrite TR; corec; reflexivity|rewrite HR; corec; reflexivity
+            |rewrite KS; corec; reflexivity|rewrite ST; corec; auto
+            |cbn; intros X; first [discriminate X | split; [discriminate|]];
+             repeat match goal with H : _ && _ = true |- _ => apply andb_true_iff in H; destruct H end; auto
+            |rewrite TH; corec; apply oth_plain
+            |rewrite TH; corec; apply upd_same
+            |intros ? X; subst; destruct NO|intros ? X; subst; destruct NO|exact OK]; fail).
+Qed.
+
+Lemma Cb_enter s t :
+  CbInv s -> thr s t = Some (TCon KEnter) ->
+  CbInv (thr_set t (TCon KHandler) (set_hreg true (log EvConnectCb s))).
+Proof.
+  intros [C1 C2 C3 C4 C8 C5 C6 C7] ET. destruct (C4 _ _ ET) as [KS HF]. cbn in HF.
+  constructor; corec.
+  - discriminate.
+  - intros _. exists []. rewrite cbs_app, (C1 HF). cbn. auto.
+  - auto.
+  - intros t0 pc. unfold upd. destruct (N.eqb_spec t0 t).
+    + intros [= <-]. cbn. auto.
+    + intros E. exfalso. apply n. eapply C5; eauto.
+  - auto.
+  - intros t0 t1 pc pc'. unfold upd.
+    destruct (N.eqb_spec t0 t); destruct (N.eqb_spec t1 t); subst; auto; intros E0 E1.
+    + eapply C5; eauto.
+    + eapply C5; eauto.
+    + eapply C5; eauto.
+  - auto.
+  - auto.
+Qed.
+
+Ltac cbplain_s CI NN FR NT ET s0 :=
+  repeat (match goal with |- context [if ?x then _ else _] => destruct x eqn:? end);
+  first
+  [ eapply Cb_step0 with (nt := 2 * next_int s0 + 1); [exact CI|exact NN
+      |corec; reflexivity|corec; reflexivity|corec; reflexivity|corec; auto
+      |corec; first [apply oth_plain | apply oth_spawn; [exact FR|exact NT|reflexivity]]
+      |corec; apply upd_same
+      |intros ? X; discriminate X
+      |intros ? X; inversion X; subst; rewrite ET; eauto
+      |intros ? X; inversion X; subst; cbn; intros; first [eapply (cb_prev _ CI); eauto; fail | auto]]
+  | eapply Cb_step1 with (nt := 2 * next_int s0 + 1); [exact CI|exact NN
+      |corec; reflexivity|corec; reflexivity|corec; reflexivity|corec; auto
+      |cbn; intros X; first [discriminate X | split; [discriminate|auto]]
+      |corec; apply oth_plain|corec; apply upd_same
+      |intros ? X; discriminate X
+      |intros ? X; inversion X; subst; rewrite ET; eauto
+      |intros ? X; inversion X; subst; cbn; intros; first [eapply (cb_prev _ CI); eauto; fail | auto]] ].
+
+Lemma step_thread_Cb s t b s' : CbInv s -> InvBS s -> step_thread s t b = Some s' -> CbInv s'.
+Proof.
+  intros CI I H. unfold step_thread in H.
+  destruct (thr s t) as [[a|u|k|k|pc|c]|] eqn:ET; try discriminate.
+  all: assert (NN : thr s t <> None) by congruence.
+  all: assert (FR : thr s (2 * next_int s + 1) = None) by (eapply fresh_int_b; eauto).
+  all: assert (NT : t <> 2 * next_int s + 1) by (intros E; rewrite <- E in FR; congruence).
+  - eapply att_step_Cb; eauto.
+  - destruct (u_step s t u b) as [[s1 [u'|]]|] eqn:EU; inv H.
+    + eapply (u_step_Cb s t _ u b s1 _ (Some (TUns u')) CI ET); [intros ? X; discriminate X|exact Logic.I|exact EU
+        |corec; reflexivity|corec; reflexivity|corec; reflexivity|corec; reflexivity|corec; reflexivity].
+    + eapply (u_step_Cb s t _ u b s1 _ None CI ET); [intros ? X; discriminate X|exact Logic.I|exact EU
+        |corec; reflexivity|corec; reflexivity|corec; reflexivity|corec; reflexivity|corec; reflexivity].
+  - (* close *)
+    unfold cls_step in H. destruct (k_pc k) eqn:EPC.
+    8:{ destruct (k_cur k) as [u|] eqn:EC.
+        - destruct (u_step s t u b) as [[s1 ou]|] eqn:EU; [|discriminate]. inv H.
+          eapply (u_step_Cb s t _ u b s1 ou (Some (TCls (mkC CLoop (k_prev k) (k_rest k) ou))) CI ET);
+            [intros k0 X P; inversion X; subst; cbn in P; eapply (cb_prev _ CI); eauto
+            |exact Logic.I|exact EU|corec; reflexivity|corec; reflexivity|corec; reflexivity|corec; reflexivity|corec; reflexivity].
+        - destruct (k_rest k); [|destruct b]; inv H; cbplain_s CI NN FR NT ET s;
+            intros; eapply (cb_prev _ CI); eauto. }
+    3:{ (* CFlip *)
+        destruct (is_closed (status s)) eqn:CL; inv H; [cbplain_s CI NN FR NT ET s|].
+        eapply Cb_step0 with (nt := 0); [exact CI|exact NN|corec; reflexivity|corec; reflexivity|corec; reflexivity
+          |corec; discriminate|corec; apply oth_plain|corec; apply upd_same
+          |intros ? X; discriminate X|intros ? X; discriminate X
+          |intros k0 X P; inversion X; subst; cbn in P; apply (cb_conn _ CI); auto]. }
+    7:{ (* CDisc *)
+        inv H. destruct (is_connected (k_prev k)) eqn:PK.
+        - assert (HR : hreg s = true) by (eapply (cb_prev _ CI); eauto; destruct (k_prev k); try discriminate; auto).
+          eapply Cb_step1 with (nt := 0); [exact CI|exact NN|corec; reflexivity|corec; reflexivity|corec; reflexivity
+            |corec; auto|cbn; intros _; split; [discriminate|exact HR]|corec; apply oth_plain|corec; apply upd_same
+            |intros ? X; discriminate X|intros ? X; discriminate X|intros; exact HR].
+        - cbplain_s CI NN FR NT ET s. }
+    all: repeat match type of H with (if ?c then _ else _) = _ => destruct c eqn:? end;
+         try discriminate; inv H; cbplain_s CI NN FR NT ET s;
+         try (intros; eapply (cb_prev _ CI); eauto).
+  - (* tick *)
+    unfold tck_step in H. destruct b.
+    all: destruct (t_pc k);
+      repeat match type of H with
+      | (if ?c then _ else _) = _ => destruct c eqn:?
+      | match ?l with [] => _ | _ :: _ => _ end = _ => destruct l
+      | match ?o with Some _ => _ | None => _ end = _ => destruct o
+      end; try discriminate; inv H; cbplain_s CI NN FR NT ET s.
+  - (* connect *)
+    unfold con_step in H. destruct pc.
+    7:{ inv H. apply Cb_enter; auto. }
+    all: repeat match type of H with (if ?c then _ else _) = _ => destruct c eqn:? end;
+         try discriminate; inv H.
+    all: try (cbplain_s CI NN FR NT ET s; fail).
+    (* KSet: status becomes Connected; the handlers are registered *)
+    destruct (cb_con _ CI _ _ ET) as [KS HR]. cbn in HR.
+    eapply Cb_step0 with (nt := 0); [exact CI|exact NN|corec; reflexivity|corec; reflexivity|corec; reflexivity
+      |corec; auto|corec; apply oth_plain|corec; apply upd_same
+      |intros ? X; discriminate X|intros ? X; discriminate X|intros ? X; discriminate X].
+  - unfold job_step in H. destruct b; inv H; cbplain_s CI NN FR NT ET s.
+Qed.
+
+(* a fresh thread, nothing else changes *)
+Lemma Cb_spawn s s' tn x :
+  CbInv s -> thr s tn = None ->
+  trace s' = trace s -> hreg s' = hreg s -> status s' = status s ->
+  thr s' = upd (thr s) tn (Some x) ->
+  match x with
+  | TAtt a => a_kind a = Cli -> hreg s = true
+  | TCon pc => kstarted s = false /\ hreg s = false /\ pre_enter pc = true /\ kstarted s' = true
+  | TCls k => k_prev k = Connecting
+  | _ => True
+  end ->
+  (match x with TCon _ => True | _ => kstarted s' = kstarted s end) ->
+  CbInv s'.
+Proof.
+  intros [C1 C2 C3 C4 C8 C5 C6 C7] FR TR HR ST TH X KS.
+  assert (NOCON : (exists pc, x = TCon pc) -> forall t0 pc0, thr s t0 = Some (TCon pc0) -> False).
+  { intros (pc & ->) t0 pc0 E. destruct X as (K & _). destruct (C4 _ _ E). congruence. }
+  constructor; rewrite ?TR, ?HR, ?ST; auto.
+  - intros t0 a. rewrite TH. unfold upd. destruct (N.eqb_spec t0 tn); [intros [= ->]; auto|eauto].
+  - intros t0 pc. rewrite TH. unfold upd. destruct (N.eqb_spec t0 tn).
+    + intros [= ->]. destruct X as (K & H & P & K'). rewrite H, P. auto.
+    + intros E. destruct (C4 _ _ E) as [A B]. split; auto.
+      destruct x; try (rewrite KS; auto). exfalso. eapply NOCON; eauto.
+  - intros T. specialize (C8 T). destruct x; try (rewrite KS; auto). destruct X as (_ & H & _). congruence.
+  - intros t0 t1 pc pc'. rewrite TH. unfold upd.
+    destruct (N.eqb_spec t0 tn); destruct (N.eqb_spec t1 tn); subst; auto.
+    + intros [= ->] E. exfalso. eapply NOCON; eauto.
+    + intros E [= ->]. exfalso. eapply NOCON; eauto.
+    + eauto.
+  - intros t0 k. rewrite TH. unfold upd. destruct (N.eqb_spec t0 tn); [intros [= ->] P; rewrite X in P; discriminate|eauto].
+Qed.
+
+Lemma astep_Cb s l s' : CbInv s -> InvBS s -> astep s l = Some s' -> CbInv s'.
+Proof.
+  intros CI I H. destruct l; cbn in H.
+  - (* spawn *)
+    unfold spawn in H.
+    assert (FR : thr s (2 * next_ext s) = None) by (eapply fresh_ext_b; eauto).
+    assert (FRI : thr s (2 * next_int s + 1) = None) by (eapply fresh_int_b; eauto).
+    destruct o;
+      repeat match type of H with (if ?c then _ else _) = _ => destruct c eqn:? end;
+      try discriminate; inv H.
+    all: try (eapply Cb_spawn with (tn := 2 * next_ext s); [exact CI|exact FR|corec; reflexivity|corec; reflexivity
+             |corec; reflexivity|corec; reflexivity
+             |cbn; first [intros K; discriminate K
+                         |intros _; repeat match goal with H : _ && _ = true |- _ => apply andb_true_iff in H; destruct H end; assumption
+                         |auto]
+             |cbn; corec; auto]; fail).
+    + (* OConnect *)
+      eapply Cb_spawn with (tn := 2 * next_ext s); [exact CI|exact FR|corec; reflexivity|corec; reflexivity
+             |corec; reflexivity|corec; reflexivity| |cbn; auto].
+      cbn. corec. repeat split; auto. destruct (hreg s) eqn:HG; auto.
+      rewrite (cb_hk _ CI HG) in Heqb. discriminate.
+    + (* OShutdown *)
+      destruct (reg s).
+      * eapply Cb_spawn with (tn := 2 * next_int s + 1); [exact CI|exact FRI|corec; reflexivity|corec; reflexivity
+             |corec; reflexivity|corec; reflexivity|cbn; auto|cbn; corec; auto].
+      * destruct CI as [C1 C2 C3 C4 C8 C5 C6 C7]. constructor; corec; auto.
+  - eapply step_thread_Cb; eauto.
+  - (* timeout *)
+    unfold timeout_thread in H. destruct (thr s t) as [[a|u|k|k|pc|c]|] eqn:ET; try discriminate.
+    all: assert (NN : thr s t <> None) by congruence.
+    all: assert (FR : thr s (2 * next_int s + 1) = None) by (eapply fresh_int_b; eauto).
+    all: assert (NT : t <> 2 * next_int s + 1) by (intros E; rewrite <- E in FR; congruence).
+    + destruct (u_timeout s u) as [s1|] eqn:EU; inv H. unfold u_timeout in EU.
+      destruct (u_pc u); try discriminate. inv EU.
+      destruct (lookup (u_ch u) (chans s)) as [x|]; [destruct (c_gate x)|];
+        try (destruct (cg_tr (c_gen x) s) as (K1 & K2 & K3 & K4 & K5));
+        (eapply Cb_step0 with (t := t) (nt := 2 * next_int s + 1); [exact CI|exact NN
+          |corec; rewrite ?K1; reflexivity|corec; rewrite ?K3; reflexivity|corec; rewrite ?K4; reflexivity
+          |corec; rewrite ?K5; auto
+          |corec; rewrite ?K2, ?cg_ni'; apply oth_spawn; [exact FR|exact NT|reflexivity]
+          |corec; rewrite ?K2, ?cg_ni'; apply upd_same
+          |intros ? X; discriminate X|intros ? X; discriminate X|intros ? X; discriminate X]).
+    + destruct (k_pc k); try discriminate. destruct (k_cur k) as [u|]; try discriminate.
+      destruct (u_timeout s u) as [s1|] eqn:EU; inv H. unfold u_timeout in EU.
+      destruct (u_pc u); try discriminate. inv EU.
+      destruct (lookup (u_ch u) (chans s)) as [x|]; [destruct (c_gate x)|];
+        try (destruct (cg_tr (c_gen x) s) as (K1 & K2 & K3 & K4 & K5));
+        (eapply Cb_step0 with (t := t) (nt := 2 * next_int s + 1); [exact CI|exact NN
+          |corec; rewrite ?K1; reflexivity|corec; rewrite ?K3; reflexivity|corec; rewrite ?K4; reflexivity
+          |corec; rewrite ?K5; auto
+          |corec; rewrite ?K2, ?cg_ni'; apply oth_spawn; [exact FR|exact NT|reflexivity]
+          |corec; rewrite ?K2, ?cg_ni'; apply upd_same
+          |intros ? X; discriminate X|intros ? X; discriminate X
+          |intros k0 X P; inversion X; subst; cbn in P; eapply (cb_prev _ CI); eauto]).
+  - (* job start *)
+    unfold job_start in H. destruct (mem c (jobs s) && negb (slock s c)); [|discriminate].
+    assert (FRI : thr s (2 * next_int s + 1) = None) by (eapply fresh_int_b; eauto).
+    destruct (subscribers s c); inv H.
+    + destruct CI as [C1 C2 C3 C4 C8 C5 C6 C7]. constructor; corec; auto.
+    + eapply Cb_spawn with (tn := 2 * next_int s + 1); [exact CI|exact FRI|corec; reflexivity|corec; reflexivity
+             |corec; reflexivity|corec; reflexivity|cbn; auto|cbn; corec; auto].
+  - unfold other_add in H. destruct (slock s c); [discriminate|].
+    destruct CI as [C1 C2 C3 C4 C8 C5 C6 C7].
+    destruct (subscribers s c); [|destruct b]; inv H; constructor; corec; auto.
+  - unfold other_rem in H. destruct (slock s c || (others s c =? 0)); [discriminate|].
+    destruct CI as [C1 C2 C3 C4 C8 C5 C6 C7].
+    destruct ((others s c =? 1) && match hub s c with None => true | Some _ => false end); inv H;
+      constructor; corec; auto.
+Qed.
+
+Theorem exec_Cb l : forall s s', CbInv s -> InvBS s -> exec l s = Some s' -> CbInv s'.
+Proof.
+  induction l as [|x l IH]; cbn; intros s s' CI I H.
+  - inv H. auto.
+  - destruct (astep s x) as [s1|] eqn:E; [|discriminate].
+    apply (IH s1 s'); auto; [eapply astep_Cb|eapply astep_B]; eauto.
+Qed.
+
+(* ---- C08 statements ---- *)
+(* the callback log starts with the connect callback and contains it exactly once *)
+Theorem connect_first_once sched s :
+  exec sched init = Some s ->
+  cbs (trace s) = [] \/ exists l, cbs (trace s) = EvConnectCb :: l /\ ~ In EvConnectCb l.
+Proof.
+  intros E. assert (CI : CbInv s) by (eapply exec_Cb; eauto; [apply CbInv_init|apply InvBS_init]).
+  destruct (hreg s) eqn:H; [right; apply (cb_first _ CI H)|left; apply (cb_none _ CI H)].
+Qed.
+
+(* a disconnect callback (like any other) is only ever preceded by the connect callback *)
+Theorem callback_needs_connect sched s e :
+  exec sched init = Some s -> In e (trace s) -> is_cb e = true -> In EvConnectCb (trace s).
+Proof.
+  intros E HI CB. destruct (connect_first_once _ _ E) as [N|(l & EQ & _)].
+  - assert (X : In e (cbs (trace s))) by (apply filter_In; auto). rewrite N in X. destruct X.
+  - assert (X : In EvConnectCb (cbs (trace s))) by (rewrite EQ; left; auto).
+    apply filter_In in X. tauto.
 Qed.
